@@ -52,7 +52,7 @@ def is_gate_fn(P, name, _depth=0):
     G = P.B(name)
     if G is None or _depth > 1 or not name.startswith(CONN):
         return False
-    oks = [bb for bb, j, st in G.stmts() if st['k'] == '=' and st['pl']['l'] == 0 and not st['pl'].get('p') and st['rv']['k'] == 'agg' and st['rv'].get('var') == 'Ok']
+    oks = [bb for bb, j, st in G.stmts() if st['k'] == '=' and G.is_ret_slot(st['pl']['l']) and not st['pl'].get('p') and st['rv']['k'] == 'agg' and st['rv'].get('var') == 'Ok']
     return bool(oks) and all(connected_gate(G, bb) for bb in oks)
 
 
